@@ -108,3 +108,17 @@ func (s *State) VerifSettled() bool {
 
 /* for callbacks that already run under the mutex */
 func (s *State) VerifHeightLocked() int { return s.height }
+
+/* Settled, with a media hook that the harness keeps running: `opening` is a resting state. */
+func (s *State) VerifSettledHookHeld() bool {
+	s.m.Lock()
+	defer s.m.Unlock()
+	if s.mode == loading {
+		return false
+	}
+	if s.h.IsEmpty() {
+		return true
+	}
+	page := s.h.Current()
+	return !page.loadingUp && !page.loadingDown
+}
